@@ -143,8 +143,9 @@ def fill_scripts(rng, case, paths_by_variant):
 def build_download_file(case):
     from apt_mirror.download.download_file import DownloadFile, HashSum, HashType
     fl = case["flags"]
+    pre = Path(case.get("prefix", ""))
     if case["ctor"] == "hashed":
-        base = Path("d/sub/Index")
+        base = pre / "d/sub/Index"
         df = None
         for v in case["variants"]:
             path = base.with_name(base.name + COMPS[v["comp"]][1])
@@ -162,9 +163,9 @@ def build_download_file(case):
         v = case["variants"][0]
         hashes = {HashType(h): HashSum(type=HashType(h), hash=HASHVAL[h]) for h in v["hashes"]}
         df = PackageFile(path=Path("pkg_1.0" + v["ext"]), size=v["size"], hashes=hashes).to_download_file(
-            Path("pool/main/p"))
+            pre / "pool/main/p")
     else:
-        df = DownloadFile.from_path(Path("dists/c/InRelease"), check_size=fl["check_size"],
+        df = DownloadFile.from_path(pre / "dists/c/InRelease", check_size=fl["check_size"],
                                     ignore_missing=fl["ignore_missing"])
     df.ignore_errors = fl["ignore_errors"]
     return df
@@ -317,6 +318,131 @@ def c_obs(o):
         cnat(o["kind"]), cnat(o["vi"]), cN(o["sz"]),
         clist(ctuple(cstr(p), cnat(n)) for p, n in o["reqs"]),
         clist(copt(x, lambda t: ctuple(cN(t[0]), copt(t[1], cZ))) for x in o["files"]))
+
+
+STAGE_DEFS = """
+From AM.Model Require Import Stage.
+Definition contrib (r : file_result) (f : dfile) : list N :=
+  (* downloaded n/size, unmodified n/size, missing n/size, error n/size *)
+  match r with
+  | FPre _ => [0; 0; 1; dsize f; 0; 0; 0; 0]
+  | FCrash c _ => if c then [0; 0; 0; 0; 0; 0; 1; dsize f] else [0; 0; 0; 0; 0; 0; 0; 0]
+  | FRun x =>
+      match r_out x with
+      | Downloaded _ _ sz => [1; sz; 0; 0; 0; 0; 0; 0]
+      | Unmodified _ _ sz => [0; 0; 1; sz; 0; 0; 0; 0]
+      | Ignored | OptionalMissing => [0; 0; 0; 0; 0; 0; 0; 0]
+      | CountedMissing => [0; 0; 0; 0; 1; dsize f; 0; 0]
+      | CountedFailed => [0; 0; 0; 0; 0; 0; 1; dsize f]
+      end
+  end%N.
+Fixpoint vadd (a b : list N) : list N :=
+  match a, b with x :: r, y :: s => (x + y)%N :: vadd r s | _, _ => [] end.
+Definition stage_obs := (list N * list (string * nat) * list (option (N * option Z)))%type.
+Definition m_stage (c : list dfile * upstream * lfs) : stage_obs :=
+  match c with (files, u, fs) =>
+    let '(rs, fs') := run_stage false files u fs in
+    (fold_left vadd (map (fun p => contrib (snd p) (fst p)) (combine files rs)) [0; 0; 0; 0; 0; 0; 0; 0]%N,
+     List.concat (map requests_of rs), show_fs fs' (flat_map all_paths files))
+  end.
+Definition eq_stage (a b : stage_obs) : bool :=
+  match a, b with (c1, r1, f1), (c2, r2, f2) =>
+    list_eqb N.eqb c1 c2 &&
+    list_eqb (fun x y => String.eqb (fst x) (fst y) && Nat.eqb (snd x) (snd y)) r1 r2 &&
+    list_eqb (opt_eqb (fun x y => N.eqb (fst x) (fst y) && opt_eqb Z.eqb (snd x) (snd y))) f1 f2
+  end.
+"""
+
+
+def prepare_stage(rng):
+    """2-4 queued files with disjoint target paths (one sub-tree each) for one Downloader.download()"""
+    cases = []
+    for i in range(rng.randint(2, 4)):
+        case = gen_case(rng)
+        case["blocked"] = False
+        case["prefix"] = f"s{i}"
+        df = build_download_file(case)
+        fill_scripts(rng, case, [(v["size"], v["paths"]) for v in variant_views(df)])
+        cases.append(case)
+    return cases
+
+
+def run_stage_impl(cases, sandbox: Path, nthreads=1):
+    """All files of the stage through ONE real Downloader (as a download stage does).  Returns the
+    aggregated counters, per-path request counts in first-request order grouped per file, and the files."""
+    root = sandbox / "t"
+    if root.exists():
+        shutil.rmtree(root)
+    root.mkdir(parents=True)
+    up = sim.SimUpstream()
+    dfs, views_all = [], []
+    for case in cases:
+        df = build_download_file(case)
+        dfs.append(df)
+        views_all.append(variant_views(df))
+        for p, sc in case["scripts"].items():
+            script = []
+            for r in sc["first"]:
+                script += [sim.Resp("retry")] * r["pre"] + [mk_resp(r)]
+            up.set(p, script, mk_resp(sc["rest"]))
+        for p, fi in case["fs"].items():
+            fp = root / p
+            fp.parent.mkdir(parents=True, exist_ok=True)
+            fp.write_bytes(b"o" * fi["size"])
+            if fi["mtime"] is not None:
+                os.utime(fp, (fi["mtime"], fi["mtime"]))
+    SimDownloader = sim.make_sim_downloader_class()
+
+    async def go():
+        settings = sim.make_settings(root, up, nthreads=nthreads)
+        d = SimDownloader(settings=settings)
+        d.upstream = up
+        d.add(*dfs)
+        await d.download()
+        return d
+
+    d = sim.run_virtual(go(), timeout_vs=3e5)
+    counters = [d.downloaded_files_count, d.downloaded_files_size, d.unmodified_files_count, d.unmodified_files_size,
+                d.missing_files_count, d.missing_files_size, d.error_files_count, d.error_files_size]
+    reqs, files = [], []
+    for views in views_all:
+        allp = []
+        for v in views:
+            allp += v["paths"]
+        order = []
+        for p, _, _ in up.log:
+            if p in allp and p not in order:
+                order.append(p)
+        reqs += [(p, up.counts[p]) for p in order]
+        for p in allp:
+            fp = root / p
+            if fp.is_file():
+                st = fp.stat()
+                mt = int(st.st_mtime)
+                files.append((st.st_size, mt if mt in DATES else None))
+            else:
+                files.append(None)
+    return {"counters": counters, "reqs": reqs, "files": files, "views": views_all}
+
+
+def c_stage(cases, views_all):
+    fs_terms, u_terms, f_terms = [], [], []
+    for case, views in zip(cases, views_all):
+        vs = clist("{| vpaths := %s; vsource := %s; vsize := %s |}" % (
+            clist(cstr(p) for p in v["paths"]), cstr(v["source"]), cN(v["size"])) for v in views)
+        f_terms.append("{| dname := \"f\"; variants := %s; check_size := %s; ignore_errors := %s; ignore_missing := %s |}" % (
+            vs, cbool(case["flags"]["check_size"]), cbool(case["flags"]["ignore_errors"]), cbool(case["flags"]["ignore_missing"])))
+        for p, sc in case["scripts"].items():
+            u_terms.append("(%s, {| first := %s; rest := %s |})" % (cstr(p), clist(c_resp(r) for r in sc["first"]), c_resp(sc["rest"])))
+        for p, fi in case["fs"].items():
+            fs_terms.append("(%s, {| fsize := %s; fmt := %s |})" % (
+                cstr(p), cN(fi["size"]), "Local" if fi["mtime"] is None else "(Date %s)" % cZ(fi["mtime"])))
+    return ctuple(clist(f_terms), clist(u_terms), clist(fs_terms))
+
+
+def c_stage_obs(o):
+    return ctuple(clist(cN(x) for x in o["counters"]), clist(ctuple(cstr(p), cnat(n)) for p, n in o["reqs"]),
+                  clist(copt(x, lambda t: ctuple(cN(t[0]), copt(t[1], cZ))) for x in o["files"]))
 
 
 def prepare_case(rng):
